@@ -13,8 +13,8 @@
 //     minimum is < 0.5 h_min (1 - 1e-9) - tol.
 //   * ambiguity band: (a) two images equally short within 1e-12 relative + 4 tol -> only the length is compared;
 //     (b) a component of the result within 4 tol of +-half the brick edge (ax/2, by/2, cz/2), where round() sits on a tie:
-//     swapping the points or moving one by a box vector may legitimately select the opposite face -> accepted, counted
-//     "ambiguous", never non-trivial.
+//     moving one point by a box vector may legitimately select the opposite face -> accepted, counted
+//     "ambiguous", never non-trivial.  The sign change under a swap is demanded without a band (round 4, seeded C02-r4-1).
 #include "h_c02_geom.h"
 
 #include <votca/csg/openbox.h>
@@ -236,9 +236,10 @@ static Result run_mic(const json &c) {
   {
     V ds = toV(p1) - toV(p2);
     if (!finite(gs) || !on_lattice(B, ds - gs, &why)) r.fail(K + "/lattice", "swapped points: " + why + " result=" + vs(gs));
-    int s = same_or_ambiguous(B, g, gs, -1, tol, tie, gap);
-    if (s == 1) ambiguous = true;
-    if (s == 2) r.fail(K + "/antisymmetry", "f(i,j)=" + vs(g) + " f(j,i)=" + vs(gs));
+    // no ambiguity band here: the statement demands the sign change for every pair, and an implementation whose image
+    // choice is an odd function of the difference (round half away from zero) delivers it also on exact ties
+    if (maxabs(gs + g) > tol) r.fail(K + "/antisymmetry", "f(i,j)=" + vs(g) + " f(j,i)=" + vs(gs));
+    if (same_or_ambiguous(B, g, gs, -1, tol, tie, gap) == 1 || tie) r.cls("antisymmetry-checked-on-tie");
   }
   // (4) unchanged when either point is moved by a whole box vector
   if (c.contains("k1")) {
